@@ -145,8 +145,10 @@ def run_unit(unit, ctx):
     b = build.Built(defn)
     for which in (["ekf", "model"] if i % 3 == 0 else ["ekf"]):
         try:
-            eb = cppdrv.EkfBinary(defn, b, {"common_subexpression_elimination": cse}, with_ekf=(which == "ekf"),
-                                  compiler=compiler)
+            cfg = {"common_subexpression_elimination": cse,
+                   "max_dt_sec": rng.choice([0.1, 0.05, 0.0123456789, 1.0 / 3.0, 2.5e-7]),
+                   "innovation_filtering": rng.choice([5.0, None, 2.718281828459045, 1e-7])}
+            eb = cppdrv.EkfBinary(defn, b, cfg, with_ekf=(which == "ekf"), compiler=compiler)
         except Exception as e:  # noqa: BLE001
             R.add([K.V(K.exc_key("cpp:generate", e), f"C++ generation raised for a valid definition ({which}): {K.exc_text(e)}",
                        traceback=K.tb_text(e), **w)])
@@ -160,7 +162,7 @@ def run_unit(unit, ctx):
                 continue
             R.stats.inc("programs_compiled")
             R.stats.inc(f"compiled_with_{compiler}")
-            cmds = [eb.cal_cmd(defn["calibration_map"])]
+            cmds = ["CFG", eb.cal_cmd(defn["calibration_map"])]
             for pt in pts:
                 x = {s: pt[s] for s in defn["state"]}
                 u = {c: pt[c] for c in defn["control"]}
@@ -176,7 +178,10 @@ def run_unit(unit, ctx):
                 R.add([K.V(key, f"generated {which} driver rc={res['rc']}: {res['out'][-300:]} {res['err'][-1500:]}", **w)])
                 continue
             R.stats.inc("sanitizer_runs_clean")
-            lines = res["lines"][1:-1]
+            for key, txt in eb.check_cfg(res["lines"][0], cfg):
+                R.add([K.V(key, f"{which}: {txt}", **w)])
+            R.stats.inc("generated_constants_checked")
+            lines = res["lines"][2:-1]
             pos = 0
             for pt in pts:
                 if which == "ekf":
